@@ -28,11 +28,19 @@ Definition outcome_code (o : outcome) : nat :=
 (* a case: format is NETCDF4?, the file before (netCDF4-python), the fields
    cfdm reads from it, the fields appended, and what the implementation did:
    outcome class and the file afterwards *)
-Definition run_case (vr : variant) (cs : bool * gopts * file * list field * list field * file * nat) : bool :=
-  let '(nc4, o, e, orig, new, e', oc) := cs in
-  let '(fl, out) := append vr nc4 o e orig new in
-  Nat.eqb (outcome_code out) oc &&
-  match out with Failed => true | _ => file_eqb fl e' end.
+(* a case: spelling of the mode, format is NETCDF4?, write options, the file
+   before (netCDF4-python), the fields cfdm reads from it, the fields
+   appended, and what the implementation did: outcome class (0 done,
+   1 refused, 2 failed, 3 mode rejected) and the file afterwards *)
+Definition call_code (o : call_outcome) : nat :=
+  match o with CAppend x => outcome_code x | CBadMode => 3 | CNotAppend => 4 end.
+
+Definition run_case (vr : variant)
+           (cs : string * bool * gopts * file * list field * list field * file * nat) : bool :=
+  let '(sp, nc4, o, e, orig, new, e', oc) := cs in
+  let '(fl, out) := write_call vr sp nc4 o e orig new in
+  Nat.eqb (call_code out) oc &&
+  match out with CAppend Failed => true | _ => file_eqb fl e' end.
 
 Definition check_case := run_case new_code.
 Definition check_case_old := run_case old_code.
@@ -42,8 +50,8 @@ Definition check_refusal (cs : bool * list field * list field * bool) : bool :=
   let '(nc4, orig, new, refused) := cs in Bool.eqb (refuse new_code nc4 orig new) refused.
 
 (* debugging aid: the model's file *)
-Definition model_file (cs : bool * gopts * file * list field * list field * file * nat) :=
-  let '(nc4, o, e, orig, new, e', oc) := cs in append new_code nc4 o e orig new.
+Definition model_file (cs : string * bool * gopts * file * list field * list field * file * nat) :=
+  let '(sp, nc4, o, e, orig, new, e', oc) := cs in write_call new_code sp nc4 o e orig new.
 
 (* cfdm.write(mode='w') of the file that exists before the appends: the
    global attributes that the model says are written (the other side of the
